@@ -764,6 +764,12 @@ func (e *FnEnc) convertTerm(v string, from, to types.Type, f *frame) (string, st
 		if f == nil {
 			bail("string/slice conversion in contract")
 		}
+		if fs == "Str" && ts == "Slice" {
+			// the result lives in a fresh backing array: its reference must be admitted by
+			// the reference invariant of the havocked slice value
+			e.allocCtr++
+			e.escapeTerm(SV{term: fmt.Sprintf("(- %d)", e.allocCtr)})
+		}
 		n, inv := e.havoc("conv", to)
 		var extra string
 		if fs == "Str" && ts == "Slice" {
@@ -774,7 +780,6 @@ func (e *FnEnc) convertTerm(v string, from, to types.Type, f *frame) (string, st
 				extra = fmt.Sprintf("(bvsle (sl-len %s) (slen %s))", n, v)
 			}
 			// fresh backing array
-			e.allocCtr++
 			extra = and(extra, fmt.Sprintf("(= (sl-ref %s) (ite (= (sl-len %s) #x0000000000000000) (sl-ref %s) (- %d)))", n, n, n, e.allocCtr),
 				fmt.Sprintf("(= (sl-off %s) #x0000000000000000)", n))
 		} else if fs == "Slice" {
